@@ -93,4 +93,103 @@ theorem run_concat : ∀ (ops : List Op) (f : File), (run f ops).2 ++ (run f ops
     rw [ih]
     simp
 
+/-! ### many writers, several FILEs, possibly ONE descriptor (2>&1)
+
+  The assumption "one fputs() on a FILE is atomic with respect to other threads" as an explicit
+  interleaving semantics: a run of the whole process below the stdio calls is ANY sequence of
+    * `call f s`   some thread's `fputs (s, FILE f)` -- one atomic step (per-call atomicity): the bytes
+                   join FILE f's buffer;
+    * `write f k`  stdio moves the first k buffered bytes of FILE f to its descriptor with one write(2)
+                   -- because the buffer is full, a newline was seen on a tty, somebody called
+                   fflush (f) / fflush (NULL), a partial write was continued, ...: the environment
+                   chooses when and how much (every buffer size, buffering mode and flush schedule is
+                   some such choice);
+  and `exit` flushes what is left of every FILE.  The descriptor side is the log of write(2) chunks,
+  each tagged with the FILE it came from; FILEs that share a descriptor (`2>&1`) share the log. -/
+
+inductive IOp where
+  | call (f : Nat) (s : Bytes)
+  | write (f : Nat) (k : Nat)
+  deriving Repr
+
+structure IOState where
+  bufs : Nat → Bytes
+  desc : List (Nat × Bytes)          -- write(2) chunks in the order they reach the descriptor(s)
+
+def iostep (st : IOState) : IOp → IOState
+  | .call f s => { st with bufs := fun g => if g = f then st.bufs g ++ s else st.bufs g }
+  | .write f k =>
+    { bufs := fun g => if g = f then (st.bufs g).drop k else st.bufs g,
+      desc := st.desc ++ [(f, (st.bufs f).take k)] }
+
+def iorun (ops : List IOp) : IOState := ops.foldl iostep ⟨fun _ => [], []⟩
+
+/-- the bytes handed to FILE `f` by the stdio calls, in the order the calls were made -/
+def callsOn (f : Nat) : List IOp → Bytes
+  | [] => []
+  | .call g s :: os => if g = f then s ++ callsOn f os else callsOn f os
+  | .write _ _ :: os => callsOn f os
+
+/-- what FILE `f` has delivered to its descriptor so far -/
+def delivered (f : Nat) (st : IOState) : Bytes := ((st.desc.filter (fun c => c.1 = f)).map (·.2)).flatten
+
+theorem callsOn_append (f : Nat) : ∀ (a b : List IOp), callsOn f (a ++ b) = callsOn f a ++ callsOn f b
+  | [], b => rfl
+  | .call g s :: os, b => by
+    by_cases h : g = f <;> simp [callsOn, h, callsOn_append f os b]
+  | .write _ _ :: os, b => by simp [callsOn, callsOn_append f os b]
+
+/-- PER FILE NOTHING IS LOST, DUPLICATED OR REORDERED BELOW fputs -- for every schedule of the threads' calls
+    and every behaviour of the buffering: delivered ++ still buffered = the calls, in call order -/
+theorem io_per_file (f : Nat) : ∀ (ops : List IOp) (st : IOState),
+    delivered f (ops.foldl iostep st) ++ (ops.foldl iostep st).bufs f = delivered f st ++ st.bufs f ++ callsOn f ops
+  | [], st => by simp [callsOn]
+  | .call g s :: os, st => by
+    rw [List.foldl_cons, io_per_file f os]
+    by_cases h : g = f
+    · subst h; simp [iostep, callsOn, delivered]
+    · have h' : ¬ f = g := fun e => h e.symm
+      simp [iostep, callsOn, delivered, h, h']
+  | .write g k :: os, st => by
+    rw [List.foldl_cons, io_per_file f os]
+    by_cases h : g = f
+    · subst h
+      simp only [iostep, callsOn, delivered, List.filter_append, List.map_append, List.flatten_append, ↓reduceIte]
+      simp [List.append_assoc]
+    · have h' : ¬ f = g := fun e => h e.symm
+      simp [iostep, callsOn, delivered, h, h']
+
+/-- after exit() (every FILE flushed): the consumer of FILE `f`'s chunks has received exactly the stdio calls
+    made on `f`, concatenated in call order -/
+theorem io_consumer_sees_calls (f : Nat) (ops : List IOp) :
+    delivered f (iorun ops) ++ (iorun ops).bufs f = callsOn f ops := by
+  have := io_per_file f ops ⟨fun _ => [], []⟩
+  simpa [iorun, delivered] using this
+
+/-- the stdio calls of a run, in the order they were made: (FILE, bytes) -/
+def callSeq : List IOp → List (Nat × Bytes)
+  | [] => []
+  | .call f s :: os => (f, s) :: callSeq os
+  | .write _ _ :: os => callSeq os
+
+theorem callsOn_eq_callSeq (f : Nat) : ∀ (ops : List IOp),
+    callsOn f ops = (((callSeq ops).filter (fun c => c.1 = f)).map (·.2)).flatten
+  | [] => rfl
+  | .call g s :: os => by
+    by_cases h : g = f <;> simp [callsOn, callSeq, h, callsOn_eq_callSeq f os]
+  | .write _ _ :: os => by simp [callsOn, callSeq, callsOn_eq_callSeq f os]
+
+/-- 2>&1: WHAT IS NOT GUARANTEED.  When stdout and stderr share a descriptor, the merged stream is the
+    chunk log itself, and only its restriction to one FILE is in order (`io_per_file`).  Across the two
+    FILEs neither the order of records nor their integrity survives: a record written to stdout first can
+    arrive after a later stderr record (it sat in the buffer), and a stdout record can arrive in two
+    write(2) chunks with a stderr record between them. -/
+theorem shared_descriptor_witness :
+    -- "A\n" to stdout, then "E\n" to stderr (unbuffered: written at once), stdout flushed later
+    ((iorun [.call 1 [65, 10], .call 2 [69, 10], .write 2 2, .write 1 2]).desc.map (·.2)).flatten = [69, 10, 65, 10] ∧
+    -- "AB\n" to stdout leaves in two chunks, "E\n" lands between them
+    ((iorun [.call 1 [65, 66, 10], .write 1 1, .call 2 [69, 10], .write 2 2, .write 1 2]).desc.map (·.2)).flatten =
+      [65, 69, 10, 66, 10] := by
+  constructor <;> decide
+
 end PdshVerif.Relay.Stdio
